@@ -2,6 +2,7 @@ package checks
 
 import (
 	"context"
+	"errors"
 	"fmt"
 	"net"
 	"runtime"
@@ -838,6 +839,50 @@ func (ch c16) Run(c *core.Ctx) {
 	}
 	if c.Begin(70001) && c.NViol() < 10 {
 		ch.realTCP(c)
+	}
+	// the accept loop ends before Close for a reason of its own (Accept fails; the listener's owner
+	// closes it): Close afterwards still returns, repeated Close calls too
+	for v := 0; v < 2; v++ {
+		if !c.Begin(70010+v) || c.NViol() >= 10 {
+			continue
+		}
+		e := &c16env{entered: make(chan string, 8)}
+		env := hs.Start(ch.parseFn(e))
+		cl := hs.NewClient(env.Dial(nil))
+		if err := cl.StartupOK("u"); err != nil {
+			continue
+		}
+		what := "Accept failed with an error"
+		if v == 0 {
+			env.L.FailAccept(errors.New("accept: too many open files"))
+		} else {
+			what = "the listener was closed by its owner"
+			env.L.Close()
+		}
+		select {
+		case <-env.ServeErr:
+		case <-time.After(30 * time.Second):
+			_, lib := core.ClassifyHang()
+			c.Violate("serve-hang", "Serve did not return after "+what, strings.Join(lib, "; "), nil)
+			c.Finish()
+		}
+		done := make(chan struct{})
+		go func() { env.Srv.Close(); env.Srv.Close(); close(done) }()
+		select {
+		case <-done:
+			c.Count("close_after_accept_loop_ended", 1)
+		case <-time.After(30 * time.Second):
+			dump, lib := core.ClassifyHang()
+			if len(lib) > 0 {
+				c.Violate("deadlock", "Close never returns once "+what+": "+strings.Join(lib, "; "), trim(dump, 3000), nil)
+			} else {
+				c.Inconclusive("Close watchdog fired (accept loop ended early) without a library-blocked goroutine")
+			}
+			c.Finish()
+		}
+		c.Eval("accept loop ended early: "+what, true)
+		cl.C.CloseWrite()
+		cl.C.WaitClosed()
 	}
 	rounds := 1600
 	if c.Tier == "thorough" {
